@@ -67,6 +67,19 @@ let sexp_of_report r =
   L [A (match r.rverdict with Pass -> "Pass" | Fail -> "Fail");
      L (List.map (fun ((i, ok), a) -> L [A (string_of_int (int_of_n i)); A (if ok then "1" else "0"); sexp_of_akind a]) r.rlog)]
 
+(* ---- C14 ---- *)
+let opt_bytes = function A "none" -> None | A a -> Some (bytes_of_atom a) | _ -> failwith "opt_bytes"
+let run_out atomic = function
+  | L [L pre; A src; L outs; L probes] ->
+    let pre = List.map (function L [A p; A c] -> (bytes_of_atom p, bytes_of_atom c) | _ -> failwith "pre") pre in
+    let outs = List.map (function L [e; c] -> (opt_bytes e, opt_bytes c) | _ -> failwith "outs") outs in
+    let (fs, r) = out_run atomic pre (bytes_of_atom src) outs in
+    let rs = match r with OOk -> "ok" | OErr OneOutputPerFile -> "err_one_output"
+                        | OErr NoSuchConverter -> "err_no_converter" | OErr ConvertFailed -> "err_convert" in
+    to_string (L [A rs; L (List.map (function A p -> (match fs_get fs (bytes_of_atom p) with
+                                       | None -> A "none" | Some c -> A (atom_of_bytes c)) | _ -> failwith "probe") probes)])
+  | _ -> failwith "out"
+
 let run mode (line : string) : string =
   let x = parse line in
   match mode with
@@ -80,6 +93,9 @@ let run mode (line : string) : string =
        let rs = test_run (if mode = "testrun" then PerFile else Shared) (List.map tfile_of_sexp files) in
        to_string (L [A (string_of_int (int_of_n (exit_code rs))); L (List.map sexp_of_report rs)])
      | _ -> failwith "testrun")
+  | "out" -> run_out true x
+  | "out_legacy" -> run_out false x
+  | "withext" -> (match x with L [A s; A e] -> atom_of_bytes (with_extension (bytes_of_atom s) (bytes_of_atom e)) | _ -> failwith "withext")
   | "zdec" -> (match x with A s -> string_of_z (z_of_string s) | _ -> failwith "zdec")
   | _ -> failwith ("mode " ^ mode)
 
